@@ -3,7 +3,8 @@
 From GV Require Import Lib.Bytes Lib.Heap Corr.Val Model.Unsafex.
 Open Scope Z_scope.
 
-(* input  (op baseLen off len cap nilflag variant)   variant 0: the compiled build variant, 1: the
+(* op 2: (2 workers rounds 0 0 0 variant) -> (0 0 0 ok 1 1)
+   input  (op baseLen off len cap nilflag variant)   variant 0: the compiled build variant, 1: the
           !go1.21 file (generated copy); Model/Unsafex.v is the model of both
 
    output (ptrOff len cap contentEqual appendKeptOriginal appendContentOK) *)
@@ -11,6 +12,11 @@ Definition check (c : cval) : verdict :=
   match c with
   | L [L [I op; I bl; I off; I ln; I cp; I nilf; I vr]; L [I po; I rl; I rc; I ceq; I kept; I appok]] =>
     if negb ((vr =? 0) || (vr =? 1)) then bad_case else
+    if op =? 2 then
+      (* conversions running concurrently in bl goroutines, off rounds each, self-checked by the harness:
+         every result is the view of its own argument (the model is a pure function of the argument) *)
+      mk ((po =? 0) && (rl =? 0) && (rc =? 0)) (negb (ceq =? 0)) (100 + vr)
+    else
     let isnil := negb (nilf =? 0) in
     let p : option ptr := if isnil then None else Some (O, Z.to_N off) in
     let '(mptr, mlen, mcap) :=
